@@ -213,12 +213,17 @@ pub fn run_session(run: &mut Run, rng: &mut Rng, is_client: bool, replay: Option
     let seed_tsn = replay.as_ref().map(|r| r.0).unwrap_or_else(|| { let r = rng.next() as u32; *rng.pick(&[1u32, 0, 0xFFFF_FFFF, 0x8000_0000, 0x7FFF_FFFF, r]) });
     let mut steps: Vec<Step> = vec![];
     let mut outs: Vec<String> = vec![];
+    let mut panicked: Option<String> = None;
     let total_len;
     {
         let mut a = Assoc::new(is_client, seed_tsn);
         let mut feed = |a: &mut Assoc, p: Vec<u8>, steps: &mut Vec<Step>, outs: &mut Vec<String>| -> Vec<Vec<u8>> {
-            let (d, issued) = a.feed(&p);
-            steps.push(Step { crc_ok: crc_ok(&p), bytes: p, issued: issued.clone() }); outs.push(d); issued
+            if panicked.is_some() { return vec![]; }
+            let r = { let mut ar = std::panic::AssertUnwindSafe(&mut *a); let pr = p.clone(); crate::catch(move || ar.feed(&pr)) };
+            match r {
+                Ok((d, issued)) => { steps.push(Step { crc_ok: crc_ok(&p), bytes: p, issued: issued.clone() }); outs.push(d); issued }
+                Err(msg) => { steps.push(Step { crc_ok: crc_ok(&p), bytes: p, issued: vec![] }); panicked = Some(msg); vec![] }
+            }
         };
         if let Some((_, pk)) = replay { for p in pk { feed(&mut a, p, &mut steps, &mut outs); } }
         else {
@@ -256,7 +261,10 @@ pub fn run_session(run: &mut Run, rng: &mut Rng, is_client: bool, replay: Option
         total_len = steps.iter().map(|s| s.bytes.len() as u64).sum::<u64>();
     }
     let text = case_text(is_client, seed_tsn, &steps);
-    let out = format!("ok {}", outs.join(" "));
+    if let Some(msg) = &panicked {
+        run.fail(&format!("panic:SctpInner::handle_packet(history):{}", super::panic_site(msg)), &format!("sctpassoc {text}"), msg);
+    }
+    let out = if panicked.is_some() { "panic".to_string() } else { format!("ok {}", outs.join(" ")) };
     // the session already ran (inputs depend on the association's own state); `exec` records it and applies the
     // process-wide panic / time oracles to the recorded run
     let _ = total_len;
